@@ -213,8 +213,28 @@ def run_index(shard, ctx):
                 shapes[a] = (h, w)
                 targets.append((0, a))
                 row += 1
-    spec = wbspec.spec(wbspec.sheet('T', cells))
+    # positions written as constants, the area on this sheet or on another one whose cells differ at the same coordinates
+    other = {wbspec.a1(1 + i, 1 + j): 9000 + 100 * i + j for i in range(1, 6) for j in range(1, 6)}
+    const_targets = []
+    crow = 1
+    for pre in ('', 'Other!', "'Other'!", 'T!'):
+        for (h, w) in ((4, 4), (1, 4), (4, 1), (2, 3)):
+            for rr in range(0, h + 2):
+                for cc in range(0, w + 2):
+                    if (rr == 0 and cc == 0) or (ctx.tier == 'quick' and (rr * 7 + cc * 3 + h + len(pre)) % 3):
+                        continue
+                    end = wbspec.a1(1 + h, 1 + w)
+                    a = wbspec.a1(crow, 12 + (len(const_targets) % 6))
+                    crow += (len(const_targets) % 6 == 5)
+                    area = f'{pre}B2:{end}' if rr % 2 else f'{pre}$B$2:{end[0]}${end[1:]}'
+                    cells[a] = f'=INDEX({area},{rr},{cc})'
+                    const_targets.append((0, a))
+    other['A9'] = '=INDEX(T!B2:E5,2,3)+INDEX(B2:E5,2,3)'
+    spec = wbspec.spec(wbspec.sheet('T', cells), wbspec.sheet('Other', other))
     vals = [[(0, 'F1', rr), (0, 'G1', cc)] for rr in range(-1, 7) for cc in range(-1, 7)]
+    judge_book(ctx, ID, spec, const_targets + [(1, 'A9')], [[], [(0, 'C3', -1), (1, 'C3', -2), (1, 'D3', -3), (0, 'D3', -4)]], exact=True, err_exact=True,
+               nontrivial=lambda case, outs: True, name='indexc', monitor='index-reference')
+    r.count('index_constant_position_formulas', len(const_targets))
 
     def classify_i(case, out, outs):
         ov = {a: v for (_, a, v) in case['overrides']}
